@@ -49,8 +49,13 @@ Section MachineN.
 
   Definition reaches (s s' : vm) : Prop := exists n, steps n s = Ok s'.
 
-  Definition stops (s : vm) (x : outcome stepres) (out : text) : Prop :=
-    exists n s1, steps n s = Ok s1 /\ step_ng orc prog s1 = x /\ v_out s1 = out.
+  (* m: heap, collector, globals and output of the state in which the machine stops *)
+  Definition stops (s : vm) (x : outcome stepres) (m : hst) : Prop :=
+    exists n s1, steps n s = Ok s1 /\ step_ng orc prog s1 = x /\ hst_of s1 = m.
+
+  (* the heap of the collection-free machine only grows *)
+  Lemma reaches_mono : forall s s', reaches s s' -> n_alloc (v_heap s) <= n_alloc (v_heap s').
+  Proof. intros s s' [n Hn]. exact (steps_ng_mono orc prog n s s' Hn). Qed.
 
   Lemma steps_app : forall n m s s1, steps n s = Ok s1 -> steps (n + m) s = steps m s1.
   Proof.
@@ -76,7 +81,7 @@ Section MachineN.
     rewrite (steps_app n m s1 s2 Hn). auto.
   Qed.
 
-  Lemma stops_now : forall s x, step_ng orc prog s = x -> stops s x (v_out s).
+  Lemma stops_now : forall s x, step_ng orc prog s = x -> stops s x (hst_of s).
   Proof. intros s x H. exists O, s. unfold steps. cbn [steps_ng]. auto. Qed.
 
   (* an ordinary instruction: the collection-free machine is the machine *)
@@ -103,58 +108,98 @@ Section RunsL.
     exists rest, byte_at prog (v_ip s) = Some (byte_of_opcode OCall) /\ byte_at prog (v_ip s + 1) = Some argc /\
                  v_stack s = VFun ip n :: rest /\ argc <= n.
 
-  (* the machine reaches an excluded state (spec/Fragment3.v) *)
-  Definition exclL (s : vm) : Prop := exists n s1, steps orc prog n s = Ok s1 /\ excluded prog s1.
+  (* the machine reaches an excluded state (spec/Fragment3.v) whose heap has at most B boxes.  The bound
+     is what lets the run be transferred to the real machine (CompileCorrectJ1 needs the address
+     bound of the state that is reached); it is always the size of the heap of a LATER state of the
+     evaluator, whose heap only grows *)
+  Definition exclL (Bd : Z) (s : vm) : Prop :=
+    exists n s1, steps orc prog n s = Ok s1 /\ excluded prog s1 /\ n_alloc (v_heap s1) <= Bd.
   (* the machine reaches a call of the function (ip, n) with argc arguments *)
-  Definition overL (argc ip n : Z) (s : vm) : Prop := exists k s1, steps orc prog k s = Ok s1 /\ at_call s1 argc ip n.
+  Definition overL (Bd : Z) (argc ip n : Z) (s : vm) : Prop :=
+    exists k s1, steps orc prog k s = Ok s1 /\ at_call s1 argc ip n /\ n_alloc (v_heap s1) <= Bd.
 
-  Definition reachesL (s s' : vm) : Prop := reaches orc prog s s' \/ exclL s.
-  Definition stopsL (s : vm) (x : outcome stepres) (out : text) : Prop := stops orc prog s x out \/ exclL s.
+  Definition reachesL (s s' : vm) : Prop := reaches orc prog s s' \/ exclL (n_alloc (v_heap s')) s.
+  Definition stopsL (s : vm) (x : outcome stepres) (m : hst) : Prop :=
+    stops orc prog s x m \/ exclL (n_alloc (hs_heap m)) s.
 
-  Lemma reaches_exclL : forall s1 s2, reaches orc prog s1 s2 -> exclL s2 -> exclL s1.
+  Lemma exclL_weaken : forall B1 B2 s, B1 <= B2 -> exclL B1 s -> exclL B2 s.
+  Proof. intros B1 B2 s H [n [s1 [H1 [H2 H3]]]]. exists n, s1. split; [exact H1|]. split; [exact H2|lia]. Qed.
+
+  Lemma overL_weaken : forall B1 B2 a i n s, B1 <= B2 -> overL B1 a i n s -> overL B2 a i n s.
+  Proof. intros B1 B2 a i n0 s H [n [s1 [H1 [H2 H3]]]]. exists n, s1. split; [exact H1|]. split; [exact H2|lia]. Qed.
+
+  (* an excluded state reached from s lies above s *)
+  Lemma exclL_lb : forall Bd s, exclL Bd s -> n_alloc (v_heap s) <= Bd.
   Proof.
-    intros s1 s2 [n Hn] [m [s3 [Hm Hx]]]. exists (n + m)%nat, s3.
+    intros Bd s [n [s1 [H1 [_ H3]]]]. pose proof (reaches_mono orc prog s s1 (ex_intro _ n H1)). lia.
+  Qed.
+
+  Lemma reaches_exclL : forall Bd s1 s2, reaches orc prog s1 s2 -> exclL Bd s2 -> exclL Bd s1.
+  Proof.
+    intros Bd s1 s2 [n Hn] [m [s3 [Hm Hx]]]. exists (n + m)%nat, s3.
     rewrite (steps_app orc prog n m s1 s2 Hn). auto.
   Qed.
 
-  Lemma reaches_overL : forall s1 s2 a i n, reaches orc prog s1 s2 -> overL a i n s2 -> overL a i n s1.
+  Lemma reaches_overL : forall Bd s1 s2 a i n, reaches orc prog s1 s2 -> overL Bd a i n s2 -> overL Bd a i n s1.
   Proof.
-    intros s1 s2 a i n0 [n Hn] [m [s3 [Hm Hx]]]. exists (n + m)%nat, s3.
+    intros Bd s1 s2 a i n0 [n Hn] [m [s3 [Hm Hx]]]. exists (n + m)%nat, s3.
     rewrite (steps_app orc prog n m s1 s2 Hn). auto.
   Qed.
 
   Lemma reachesL_refl : forall s, reachesL s s.
   Proof. intros s. left. apply reaches_refl. Qed.
 
+  (* the target of a run lies above its start *)
+  Lemma reachesL_mono : forall s s', reachesL s s' -> n_alloc (v_heap s) <= n_alloc (v_heap s').
+  Proof. intros s s' [H|H]; [exact (reaches_mono orc prog _ _ H)|exact (exclL_lb _ _ H)]. Qed.
+
   Lemma reachesL_trans : forall s1 s2 s3, reachesL s1 s2 -> reachesL s2 s3 -> reachesL s1 s3.
   Proof.
-    intros s1 s2 s3 [H1|H1] [H2|H2].
+    intros s1 s2 s3 H1 H2. pose proof (reachesL_mono _ _ H2) as M2. destruct H1 as [H1|H1]; destruct H2 as [H2|H2].
     - left. exact (reaches_trans orc prog _ _ _ H1 H2).
-    - right. exact (reaches_exclL _ _ H1 H2).
-    - right. exact H1.
-    - right. exact H1.
+    - right. exact (reaches_exclL _ _ _ H1 H2).
+    - right. exact (exclL_weaken _ _ _ M2 H1).
+    - right. exact (exclL_weaken _ _ _ M2 H1).
   Qed.
 
   Lemma reachesL_step : forall s s1, step_ng orc prog s = Ok (Continue s1) -> reachesL s s1.
   Proof. intros s s1 H. left. apply reaches_step. exact H. Qed.
 
-  Lemma reachesL_excl : forall s1 s2, reachesL s1 s2 -> exclL s2 -> exclL s1.
-  Proof. intros s1 s2 [H|H] Hx; [exact (reaches_exclL _ _ H Hx)|exact H]. Qed.
-
-  Lemma reachesL_stopsL : forall s1 s2 x out, reachesL s1 s2 -> stopsL s2 x out -> stopsL s1 x out.
+  Lemma reachesL_excl : forall Bd s1 s2, reachesL s1 s2 -> exclL Bd s2 -> exclL Bd s1.
   Proof.
-    intros s1 s2 x out [H1|H1] [H2|H2].
-    - left. exact (reaches_stops orc prog _ _ _ _ H1 H2).
-    - right. exact (reaches_exclL _ _ H1 H2).
-    - right. exact H1.
-    - right. exact H1.
+    intros Bd s1 s2 [H|H] Hx; [exact (reaches_exclL _ _ _ H Hx)|].
+    exact (exclL_weaken _ _ _ (exclL_lb _ _ Hx) H).
   Qed.
 
-  Lemma stopsL_now : forall s x, step_ng orc prog s = x -> stopsL s x (v_out s).
+  Lemma reachesL_overL : forall Bd s1 s2 a i n, reachesL s1 s2 -> overL Bd a i n s2 -> overL Bd a i n s1 \/ exclL Bd s1.
+  Proof.
+    intros Bd s1 s2 a i n0 [H|H] Hx; [left; exact (reaches_overL _ _ _ _ _ _ H Hx)|right].
+    destruct Hx as [k [s3 [Hk [_ Hb]]]]. pose proof (reaches_mono orc prog s2 s3 (ex_intro _ k Hk)).
+    apply (exclL_weaken (n_alloc (v_heap s2)) Bd s1); [lia|exact H].
+  Qed.
+
+  Lemma stops_lb : forall s x m, stops orc prog s x m -> n_alloc (v_heap s) <= n_alloc (hs_heap m).
+  Proof.
+    intros s x m [n [s1 [H1 [_ H3]]]]. pose proof (reaches_mono orc prog s s1 (ex_intro _ n H1)). subst m. exact H.
+  Qed.
+
+  Lemma stopsL_lb : forall s x m, stopsL s x m -> n_alloc (v_heap s) <= n_alloc (hs_heap m).
+  Proof. intros s x m [H|H]; [exact (stops_lb _ _ _ H)|exact (exclL_lb _ _ H)]. Qed.
+
+  Lemma reachesL_stopsL : forall s1 s2 x m, reachesL s1 s2 -> stopsL s2 x m -> stopsL s1 x m.
+  Proof.
+    intros s1 s2 x m H1 H2. pose proof (stopsL_lb _ _ _ H2) as M2. destruct H1 as [H1|H1]; destruct H2 as [H2|H2].
+    - left. exact (reaches_stops orc prog _ _ _ _ H1 H2).
+    - right. exact (reaches_exclL _ _ _ H1 H2).
+    - right. exact (exclL_weaken _ _ _ M2 H1).
+    - right. exact (exclL_weaken _ _ _ M2 H1).
+  Qed.
+
+  Lemma stopsL_now : forall s x, step_ng orc prog s = x -> stopsL s x (hst_of s).
   Proof. intros s x H. left. apply stops_now. exact H. Qed.
 
-  Lemma exclL_now : forall s, excluded prog s -> exclL s.
-  Proof. intros s H. exists O, s. split; [reflexivity|exact H]. Qed.
+  Lemma exclL_now : forall s, excluded prog s -> exclL (n_alloc (v_heap s)) s.
+  Proof. intros s H. exists O, s. split; [reflexivity|]. split; [exact H|lia]. Qed.
 End RunsL.
 
 (** * The intermediate state *)
@@ -218,6 +263,14 @@ Proof. intros. subst. reflexivity. Qed.
 
 Lemma hst_of_mk : forall B tip ops y ip fin, hst_of (mk B tip ops y ip fin) = y_m y.
 Proof. intros. unfold hst_of. mkcbn. apply hst_eta. Qed.
+
+Lemma stopsL_mk : forall orc prog B tip ops y ip fin x,
+  step_ng orc prog (mk B tip ops y ip fin) = x -> stopsL orc prog (mk B tip ops y ip fin) x (y_m y).
+Proof. intros. rewrite <- (hst_of_mk B tip ops y ip fin). apply stopsL_now. assumption. Qed.
+
+Lemma stopsL_mk_eq : forall orc prog B tip ops y ip fin x s, s = mk B tip ops y ip fin ->
+  step_ng orc prog s = x -> stopsL orc prog s x (y_m y).
+Proof. intros; subst s. apply stopsL_mk. reflexivity. Qed.
 
 Lemma mk_m_eta : forall B tip ops y ip fin,
   mk B tip ops (mkY (y_m y) (y_loc y) (y_funs y)) ip fin = mk B tip ops y ip fin.
@@ -680,9 +733,10 @@ Inductive yres (A : Type) : Type :=
 | YBrk (y : yst)                     (* stop *)
 | YCnt (y : yst)                     (* volgende *)
 | YRet (v : val) (y : yst)           (* antwoord *)
-| YErr (k : errkind) (out : text)    (* out: everything printed before the error *)
-| YFault (f : fault) (out : text)
-| YExcl (o : option (fentry * Z))    (* the run enters an excluded state: None: == on two functions;
+| YErr (k : errkind) (m : hst)       (* m: the heap, the globals and everything printed when the error is raised *)
+| YFault (f : fault) (m : hst)
+| YExcl (o : option (fentry * Z)) (m : hst)
+                                     (* the run enters an excluded state: None: == on two functions;
                                         Some (fe, argc): the literal fe is called with argc arguments,
                                         more than it has parameters *)
 | YFuel.                             (* out of fuel, or outside what the evaluator describes *)
@@ -690,9 +744,9 @@ Arguments YOk {A} a y.
 Arguments YBrk {A} y.
 Arguments YCnt {A} y.
 Arguments YRet {A} v y.
-Arguments YErr {A} k out.
-Arguments YFault {A} f out.
-Arguments YExcl {A} o.
+Arguments YErr {A} k m.
+Arguments YFault {A} f m.
+Arguments YExcl {A} o m.
 Arguments YFuel {A}.
 
 Definition ybind {A B} (x : yres A) (k : A -> yst -> yres B) : yres B :=
@@ -703,11 +757,12 @@ Definition ybind {A B} (x : yres A) (k : A -> yst -> yres B) : yres B :=
   | YRet v y => YRet v y
   | YErr e o => YErr e o
   | YFault f o => YFault f o
-  | YExcl o => YExcl o
+  | YExcl o m => YExcl o m
   | YFuel => YFuel
   end.
 
-Definition y_out (y : yst) : text := hs_out (y_m y).
+(* what an error / excluded result records *)
+Definition y_out (y : yst) : hst := y_m y.
 
 (* the value-level functions of part H1: value and new heap / collector / globals / output *)
 Definition ylift_o (y : yst) (r : outcome (val * hst)) : yres val :=
@@ -781,7 +836,7 @@ Section YEval.
   Variable lit : const -> yst -> yres val.       (* the literal policy *)
 
   Definition ybinop (op : operator) (a b : val) (y : yst) : yres val :=
-    if is_fun a && is_fun b && is_eqop op then YExcl None
+    if is_fun a && is_fun b && is_eqop op then YExcl None (y_out y)
     else match Sem.method_of op with
          | Some mth => ylift_h y (binop orc mth (hs_heap (y_m y)) a b)
          | None => YErr ETypeError (y_out y)
@@ -828,7 +883,7 @@ Section YEval.
         else match find_fun ip (y_funs y) with
              | Some fe =>
                  if negb (fe_n fe =? n) then YFuel
-                 else if Z.of_nat (length (fe_ps fe)) <? zlength vs then YExcl (Some (fe, zlength vs))
+                 else if Z.of_nat (length (fe_ps fe)) <? zlength vs then YExcl (Some (fe, zlength vs)) (y_out y)
                  else
                    let y0 := mkY (y_m y) (vs ++ repeat_val VNull (Z.to_nat (n - zlength vs))) (y_funs y) in
                    match yblock_g ys (fe_st fe) (fe_body fe) y0 with
@@ -837,7 +892,7 @@ Section YEval.
                    | YBrk _ | YCnt _ => YFuel
                    | YErr k o => YErr k o
                    | YFault x o => YFault x o
-                   | YExcl o => YExcl o
+                   | YExcl o m => YExcl o m
                    | YFuel => YFuel
                    end
              | None => YFuel
